@@ -107,6 +107,27 @@ def run(check):
                     'answered by dropping the connection' % (short(c), label))
     else:
       r_c.ok('%s: no loseConnection/abortConnection reachable' % label, m.loc())
+  # ------------------------------------------------------------------ only a frame above the CONFIGURED limit closes the connection
+  # Twisted's framing classes close the connection for a line / frame longer than self.MAX_LENGTH: that limit must be the
+  # configured one (or Twisted's / the class's own constant), not something computed from it
+  from ..rulelib import ValueNumbers
+  for cls, m, kinds in ents:
+    for k in check.repo.mro(cls):
+      if isinstance(k, tuple):
+        continue
+      for mm in k.methods.values():
+        for st in ast.walk(mm.node):
+          if isinstance(st, ast.Assign) and any(isinstance(t, ast.Attribute) and t.attr == 'MAX_LENGTH' and isinstance(t.value, ast.Name) and
+                                                mm.params and t.value.id == mm.params[0] for t in st.targets):
+            t_ = ValueNumbers(cx, mm).term(st.value, st)
+            setting = isinstance(t_, tuple) and t_[0] in ('attr', 'sub', 'field') and isinstance(t_[-1], str) and t_[-1].endswith('MAX_LENGTH') and \
+              'settings' in repr(t_)
+            if setting or (isinstance(t_, tuple) and t_[0] == 'const'):
+              r_c.ok('%s: frame-length limit = %s' % (k.name, unparse(st.value)), mm.loc(st))
+            else:
+              r_c.violate('%s: frame-length limit is not the configured one' % k.name, mm, st, 'self.MAX_LENGTH is set to `%s`, not to the '
+                          'configured limit itself: frames up to the configured maximum length are then treated as oversized and the '
+                          'connection is closed for input the listener must accept' % unparse(st.value))
   # ------------------------------------------------------------------ frames are decoded independently
   r_f = check.rule('R-C11-frame-local', 1, 'a frame is unpickled from a stream built afresh from that frame only')
   rule_frame_local(check, cx, r_f)
